@@ -228,7 +228,9 @@ func (w *world) newStore(cacheKind string, dead bool, freshCfg bool) {
 	t0 := time.Now()
 	var st *setec.Store
 	res := "ok"
-	func() {
+	returned := make(chan struct{})
+	go func() {
+		defer close(returned)
 		defer func() {
 			if p := recover(); p != nil {
 				res = "panic:" + hx(fmt.Sprint(p))
@@ -241,6 +243,15 @@ func (w *world) newStore(cacheKind string, dead bool, freshCfg bool) {
 			st = nil
 		}
 	}()
+	select {
+	case <-returned:
+	case <-time.After(time.Hour): // virtual time: far beyond any deadline or scripted recovery
+		// construction never returned; its goroutine cannot be stopped, so report and end the run
+		emit("new\trawcache=-\tnames=%s\tlookup=%s\tage=%d\tcache=%s\twfail=0\tclient=%s\tfiledoc=%s\tdeadline=%d\tnow=%d\tsvc=%s\tres=hang\telapsed=3600000\treqs=\tsnap=-\twrites=-",
+			xlist(w.cfg.names), b01(w.cfg.lookup), w.cfg.age, cacheDesc, clientKind, fileDoc, deadline, w.clock, w.svc.state())
+		out.Flush()
+		os.Exit(0)
+	}
 	elapsed := time.Since(t0)
 	cancel()
 	w.st = st
@@ -538,6 +549,15 @@ func (w *world) nextVersion(n string, r *rand.Rand) (uint32, []byte) {
 	for _, h := range hist {
 		if h.Version > max {
 			max = h.Version
+		}
+	}
+	switch r.Intn(8) {
+	case 0:
+		return uint32(max) + 1, []byte{} // a secret may legitimately be empty
+	case 1:
+		// a new version number carrying the bytes the current version has
+		if cur, ok := w.svc.active[n]; ok {
+			return uint32(max) + 1, append([]byte(nil), cur.Value...)
 		}
 	}
 	return uint32(max) + 1, randVal(r)
